@@ -57,7 +57,7 @@ func checkC04(c *Ctx) {
 	c.R.Floor("A.serial", 3)
 	c.R.Floor("A.signature", 3)
 	c.R.Floor("A.content-digest", 3)
-	c.R.Floor("A-p4.nil", 2)
+	c.R.Floor("A-p4.nil", 1)
 }
 
 // sameSigner: in the top-level verifier (and the helpers it calls), identity
@@ -102,7 +102,25 @@ func (c *Ctx) sameSigner(fn *ssa.Function) {
 		}
 	}
 	if !ok {
-		if at := c.accept().unfollowedCall(fn); at != "" {
+		// a function value that is given signer entries
+		takesSigner := func(g *ssa.Function) bool {
+			for _, pr := range g.Params {
+				t := pr.Type()
+				if pp, isP := t.Underlying().(*types.Pointer); isP {
+					t = pp.Elem()
+				}
+				if ir.NamedTypeID(t) == pkcsPkg+".signerinfo" {
+					return true
+				}
+			}
+			for _, fv := range g.FreeVars {
+				if strings.Contains(fv.Type().String(), "signerinfo") {
+					return true
+				}
+			}
+			return false
+		}
+		if at := c.accept().unfollowedCall(fn, nil, takesSigner); at != "" {
 			c.R.Infof("A.same-signer", name(fn), "signer-identity", c.Pos(fn.Pos()), "not decided for this shape: the signer entries are selected through a function value the evaluator does not follow ("+at+")")
 			return
 		}
